@@ -208,6 +208,30 @@ class Sandwich:
                 return
             self.client_plain += d
 
+    def prompt_reader(self, capacity):
+        """From now on the pipe towards the client holds `capacity` bytes, and the client reads whatever arrives at
+        once (on the loop, whenever the server's transport hands bytes to the pipe) - at any virtual time, also long
+        after the request.  What the server has written but the pipe has not taken yet sits in the transport's
+        buffer: close() still owes it, abort() loses it."""
+        self.tcp.capacity = capacity
+        inner_sink = self.cin.write
+        state = {"scheduled": False}
+
+        def tick():
+            state["scheduled"] = False
+            self._drain_once()
+            freed = self.tcp.inflight - self.cin.pending
+            if freed > 0:
+                self.tcp.consumed(freed)
+
+        def sink(chunk):
+            inner_sink(chunk)
+            if not state["scheduled"]:
+                state["scheduled"] = True
+                self.loop.call_soon(tick)
+
+        self.tcp.sink = sink
+
     def read_all_now(self):
         """A client that reads as fast as it can, without the clock moving."""
         for _ in range(100000):
